@@ -8,13 +8,13 @@ from mc.core import Result, SubCheck
 
 PROPERTY = "C10"
 ASSUMPTIONS = [
-    "labels: all tuples of <=3 (quick) / <=4 (thorough) labels from an 15-label alphabet (flat names, nested paths, suffix/prefix clashes, a generated unit-operation name 'O1', "
-    "a path through it, an untrimmed name, the root name) x {distinct, duplicate, clashing with a generated key (S, S, S_1 in every order of supply temperatures)} stream names x 6 zone-tree forms",
+    "labels: all tuples of <=3 (quick) / <=4 (thorough) labels from an 16-label alphabet (flat names, nested paths, suffix/prefix clashes, a generated unit-operation name 'O1', "
+    "a path through it, an untrimmed name, the root name) x {distinct, duplicate, clashing with a generated key (S, S, S_1 in every order of supply temperatures)} stream names x 7 zone-tree forms",
     "every input stream carries a unique duty, which is how a Stream object found in a zone is traced back to its input",
     "with a user zone tree, labels that resolve to no node or to several nodes of the tree (full path, root-relative path or path suffix) are enumerated in sets of <=2 labels; "
     "the root's own name as a label (a new process zone is created for it) in all sets",
 ]
-LABELS = ["A", "B", "A/B", "B/A", "A/A", "B/C", "A/B/C", "O1", "A/O1", " A ", "Site", "Site/A", " A / B", "A//B", "B/C/"]
+LABELS = ["A", "B", "A/B", "B/A", "A/A", "B/C", "A/B/C", "O1", "A/O1", " A ", "Site", "Site/A", " A / B", "A//B", "B/C/", "A.B"]
 TREES = {
     "none": None,
     "flat": {"name": "Site", "type": "Site", "children": [{"name": "A", "type": "Process Zone"}, {"name": "B", "type": "Process Zone"}]},
@@ -28,6 +28,11 @@ TREES = {
         {"name": "B", "type": "Zone", "children": [{"name": "C", "type": "Zone"}]}]},
     "typed-by-depth": {"name": "Site", "type": "Zone", "children": [
         {"name": "A", "type": "Zone", "children": [{"name": "B", "type": "Zone"}, {"name": "O1", "type": "Zone"}]}, {"name": "B", "type": "Zone"}]},
+    # zone names that END with another zone's name as TEXT but not as a path component (xA / A, xB / B, and a dotted name next to the path A/B)
+    "text-suffix": {"name": "Site", "type": "Site", "children": [
+        {"name": "P", "type": "Process Zone", "children": [{"name": "A", "type": "Process Zone"}, {"name": "xA", "type": "Process Zone"},
+                                                            {"name": "B", "type": "Process Zone"}, {"name": "xB", "type": "Process Zone"}]},
+        {"name": "A.B", "type": "Process Zone"}]},
 }
 
 
@@ -233,7 +238,7 @@ SUBCHECKS = {
         describe="the zone tree returned by pinch_analysis_service (after targeting, incl. the net-stream imports of total-site analysis) still conserves the streams",
         rule="as 'prepare', through the full service",
         cases=service_cases, run=run,
-        bound=lambda t: "<=2 labels from 15, 6 tree forms" if t == "quick" else "<=3 labels from 15, 6 tree forms",
+        bound=lambda t: "<=2 labels from 16, 7 tree forms" if t == "quick" else "<=3 labels from 16, 7 tree forms",
     ),
     "prepare": SubCheck(
         name="prepare",
@@ -241,6 +246,6 @@ SUBCHECKS = {
         rule="case = (labels, duplicate names?, tree form); non-trivial = >=2 distinct labels one of which is a path prefix/suffix of another, or a user tree; "
              "outcomes = distinct placements",
         cases=cases, run=run,
-        bound=lambda t: "<=4 labels from 15 (4 only without tree), 6 tree forms" if t == "quick" else "<=5 labels from 15 (5 only without tree), 6 tree forms",
+        bound=lambda t: "<=4 labels from 16 (4 only without tree), 7 tree forms" if t == "quick" else "<=5 labels from 16 (5 only without tree), 7 tree forms",
     ),
 }
